@@ -11,6 +11,9 @@ def run(tier, seed):
     loader.load()
     run.model_check("MC_CircularRecord", "MC_CircularRecord_quick.cfg" if q else "MC_CircularRecord_thorough.cfg", timeout=7200)
     run.model_check("MC_AssemblyDNA", "MC_AssemblyDNA_g2_s1.cfg" if q else "MC_AssemblyDNA_g1_s1.cfg", timeout=7200)
+    # the implementation's coordinate arithmetic (rotate, slice by extent, shift) transports exactly the features inside the fragment
+    for cfg in (["MC_Locations_n4.cfg"] if q else ["MC_Locations_n4.cfg", "MC_Locations_n5.cfg", "MC_Locations_n6.cfg"]):
+        run.model_check("MC_Locations", cfg)
     recipes = ac.real_family_cases(rng, 3 if q else 15, 4, annotate=True)
     # the same annotated inputs at another rotation (rotated with the implementation's own operator)
     for r in ac.real_family_cases(rng, 1 if q else 6, 3, annotate=True):
